@@ -2495,7 +2495,10 @@ static void compile_stmt(CG *cg, ASTNode *node) {
                 emit_op(cg, OP_RET);
             }
         }
-        if (cg->code_size == 0 || cg->code[cg->code_size - 1] != OP_RET) {
+        if (!(body && (body->type != AST_BLOCK ||
+                       (body->as.block.count > 0 &&
+                        body->as.block.statements[body->as.block.count - 1] &&
+                        body->as.block.statements[body->as.block.count - 1]->type == AST_RETURN)))) {
             emit_op(cg, OP_PUSH_VOID);
             emit_op(cg, OP_RET);
         }
@@ -2604,10 +2607,15 @@ static void compile_function(CG *cg, ASTNode *fn_node) {
         }
     }
 
-    /* Ensure function always returns (implicit return void) */
-    if (cg->code_size == 0 || cg->code[cg->code_size - 1] != OP_RET) {
-        /* Check last instruction - a rough check on the opcode byte.
-         * If the last emitted instruction wasn't RET, add implicit return. */
+    /* Ensure function always returns (implicit return void).  Decided on the last statement, not on
+     * the last emitted byte: after `if c { return }` the code ends with a RET byte, yet the path
+     * that skips the branch arrives behind it. */
+    bool ends_with_return = body &&
+        (body->type != AST_BLOCK ||
+         (body->as.block.count > 0 &&
+          body->as.block.statements[body->as.block.count - 1] &&
+          body->as.block.statements[body->as.block.count - 1]->type == AST_RETURN));
+    if (!ends_with_return) {
         emit_op(cg, OP_PUSH_VOID);
         emit_op(cg, OP_RET);
     }
